@@ -52,6 +52,9 @@ def run(args):
         finally:
             S.POLY = False
         rep.obligation(ok, lambda f=f, t=t: C.Finding("C03", "R-FWD.angle", f["name"], "angle() is not atan2(imag(), real()): %s" % t[:160], f["file"], f["line"]))
+    from . import rules_series
+    ns = rules_series.check(rep, "C03", {"log"})
+    rep.floor("series_cells", ns, 30)
     rep.floor("switch_functions", nf, 3)
     rep.floor("observables_compared", no + no2, 4)
     rep.floor("delegations", nd, 3)
@@ -61,9 +64,10 @@ def run(args):
         "R-JET / R-DIV (C03.b): SE2::log and SO3Tangent::ljacinv (V^-1) arms meet within 1e-9 (double) / 1e-4 (float); no division by a vanishing quantity on the small-angle side",
         "R-FWD.delegation: SE3 / SE_2_3 / SGal3 log obtain the rotation part from SO3::log and the linear parts through ljacinv of that tangent",
         "R-FWD.angle (C03.c): SO2/SE2 angle() = atan2(imag, real)",
+        "R-SERIES.log (C03.d): for SO2, SE2, SO3, SE3, SE_2_3, SGal3 the code of log applied to the code of exp, both interpreted over truncated power series in the tangent (engine/jetnum.py; closed-form arms, hemisphere w > 0), gives log(exp t) = t + O(|t|^6) coefficient by coefficient: log inverts exp through order 5 at the origin, in every direction",
     ]
     rep.units = ["SO2/SE2/SO3/SE3/SE_2_3/SGal3 double drivers"]
     rep.trusted = ["sympy series / limits", "unit-norm invariant of valid elements (w^2 + |v|^2 = 1)", "clang AST"]
-    rep.assumptions = ["NOT decided: exp(log X) = X and log(exp t) = t as numerical round trips; behaviour near theta = pi; finiteness for all valid X"]
+    rep.assumptions = ["NOT decided: exp(log X) = X and log(exp t) = t as numerical round trips and beyond order 5 of the Taylor expansion at the origin; behaviour near theta = pi; finiteness for all valid X"]
     rep.checker_cmd = "manif-sa plugin + engine/jeteval.py + engine/rules_jet.py"
     return rep.finish()
